@@ -28,7 +28,10 @@ RULE = ('file: 1-4 dimensions (length 1-4, at most one unlimited), 1-5 variables
         'sliceDimensions incl. several index arrays, applyAlongDimensions, stack, mask, eval, binary operators, interpDimension) '
         'whose arguments are drawn valid for the CURRENT state of the real file (mostly) or malformed (unknown key, index out of range, '
         'unequal index-array lengths, mismatching mask shape); structure observed after every step. Non-trivial = at least one '
-        'successful step that changed the structure.')
+        'successful step that changed the structure. A fifth of the cases are IOAPI-convention files (ioapi_base.from_arrays, 4-D variables plus '
+        'optionally a 2-D (ROW,COL) variable) driven through multi-dimension sliceDimensions calls mixing index lists, ints and slices on '
+        'TSTEP/LAY/ROW/COL, plus apply/subset/mask/eval/stack/renameVariable/copy; there well-formedness and "TSTEP unlimited" are evaluated '
+        'directly on the real objects after every step (Python oracle; the IOAPI wrappers are not in Model/FileStruct.v).')
 TRUSTED = ['numpy assignment broadcasting / binary broadcasting / slice-length rules as modelled in Model/FileStruct.v (bc_into, bcast, slice_len): checked only through the correspondence',
            'the structural observation (dimensions, isunlimited, var.dimensions, var.shape, ncattrs+getattr) is taken from the real objects by harness/props/c01.py',
            'operands `other` of stack/arithmetic are observed from the real objects and given to the model as inputs']
